@@ -295,7 +295,7 @@ class Compose(productmd.common.MetadataBase):
     def _validate_id(self):
         self._assert_type("id", list(six.string_types))
         self._assert_not_blank("id")
-        self._assert_matches_re("id", [r"(?s).*\d{8}(\.nightly|\.n|\.ci|\.test|\.t)?(\.\d+)?"])
+        self._assert_matches_re("id", [r"(?s).*[0-9]{8}(\.nightly|\.n|\.ci|\.test|\.t)?(\.[0-9]+)?"])
 
     def _validate_date(self):
         self._assert_type("date", list(six.string_types))
